@@ -782,7 +782,19 @@ Quat<T>::setRotation (const Vec3<T>& from, const Vec3<T>& to) IMATH_NOEXCEPT
         // from f0 to h0, then from h0 to t0.
         //
 
-        Vec3<T> h0 = (f0 + t0).normalized ();
+        //
+        // If f0 + t0 is no more than rounding noise of the two
+        // normalizations, f0 and t0 are opposite to within rounding;
+        // normalizing that noise would yield an arbitrary h0 (typically
+        // parallel to f0, for which setRotationInternal() degenerates),
+        // so treat the pair as exactly opposite.
+        //
+
+        Vec3<T> h0 = f0 + t0;
+
+        const T tiny = T (8) * std::numeric_limits<T>::epsilon ();
+
+        h0 = ((h0 ^ h0) > tiny * tiny) ? h0.normalized () : Vec3<T> (0);
 
         if ((h0 ^ h0) != 0)
         {
